@@ -541,6 +541,30 @@ def r11_8_object_state_inventory(ctx):
     ctx.require_min("R11.8", 30)
 
 
+def r11_9_convention_is_asked_for(ctx):
+    ctx.rule("R11.9", "a routine's body is only ever evaluated for the calling convention of the compile in progress: every call of get_declaration_by_option names the convention it wants (none relies on the default), and in the compiler package the argument is the compile's own `use_frame_pointers` option - evaluating the other convention as a side effect caches a declaration and draws slot ids that a later compile of the same objects inherits")
+    n = 0
+    for f in ctx.model.iter_funcs():
+        if f.module.name.endswith("_test") or not f.module.name.startswith("pyteal."):
+            continue
+        for c in walk_local(f.node):
+            if not (isinstance(c, ast.Call) and isinstance(c.func, ast.Attribute) and c.func.attr == "get_declaration_by_option"):
+                continue
+            n += 1
+            args = list(c.args) + [k.value for k in c.keywords]
+            construct = f"{f.qualname}:get_declaration_by_option#{sum(1 for x in walk_local(f.node) if isinstance(x, ast.Call) and isinstance(x.func, ast.Attribute) and x.func.attr == 'get_declaration_by_option' and x.lineno <= c.lineno)}"
+            if len(args) != 1:
+                ctx.bad("R11.9", construct, f"`{u(c)}` does not say which calling convention it wants: the default evaluates (and caches) the frame-pointer body whatever the compile in progress uses", f"{f.module.rel}:{c.lineno}")
+                continue
+            a = q.resolve_local(f.node, args[0]) if hasattr(q, "resolve_local") else args[0]
+            if f.module.name.startswith("pyteal.compiler."):
+                ok = isinstance(a, ast.Attribute) and a.attr == "use_frame_pointers"
+                ctx.check(ok, "R11.9", construct, f"`{u(c)}` in the compiler asks for a fixed convention instead of the compile's `use_frame_pointers` option", f"{f.module.rel}:{c.lineno}", fact={"argument": u(args[0])})
+            else:
+                ctx.ok("R11.9", construct, {"argument": u(args[0])}, f"{f.module.rel}:{c.lineno}")
+    ctx.require_min("R11.9", 10)
+
+
 def run(ctx):
     r11_1_inventory(ctx)
     r11_2_ids_by_order(ctx)
@@ -551,6 +575,7 @@ def run(ctx):
     r11_6b_rewind_to_saved_value(ctx)
     r11_7_no_entropy(ctx)
     r11_8_object_state_inventory(ctx)
+    r11_9_convention_is_asked_for(ctx)
     from rules import c03 as _c03
 
     _c03.r03_1_skip_set(ctx)  # optimiser skip set recomputed per compilation (state on a reusable OptimizeOptions object)
